@@ -62,19 +62,44 @@ func (fr *Frame) poolGet(p *PoolDecl, pool *Val, st *State, pos token.Pos) *Val 
 		fr.bindErr(&Clause{Kind: "pool", Label: p.Src, File: p.File, Line: p.Line}, fmt.Errorf("unbound:type %s", p.Type))
 		return &Val{T: e.fresh("poolget", "Iface"), S: "Iface"}
 	}
-	e.trusted["sync.Pool "+p.Src+": Get returns an object satisfying the pool invariant (proved at every Put)"] = true
+	e.trusted["sync.Pool "+p.Src+": Get returns an exclusively owned object satisfying the pool invariant (invariant proved at every Put; no use after Put assumed)"] = true
 	s := e.sortOf(t)
 	var x *Val
 	tag := e.tagOf(t)
 	var res string
+	// Exclusive ownership: an object handed out by a pool is referenced by nothing else (a value that
+	// was Put is never used again by its former holder), so it is modelled as a fresh object whose
+	// fields are unconstrained except for the pool invariant; arrays held in its slice fields are
+	// fresh as well.
 	if isPointerLike(t) {
-		r := e.fresh("pooled", "Int")
-		e.assume(st.pc, "(and (< 0 "+r+") (< "+r+" "+e.next(st)+"))")
+		r := e.allocRef(st, "pooled")
 		x = &Val{T: r, S: "Int", GoT: t}
 		res = fmt.Sprintf("(mk-iface %d %s)", tag, r)
+		if pt, ok := t.Underlying().(*types.Pointer); ok {
+			if u, ok := pt.Elem().Underlying().(*types.Struct); ok {
+				for i := 0; i < u.NumFields(); i++ {
+					c, cs, ft := e.fieldComp(pt.Elem(), i)
+					fv := sSel(e.get(st, c, "(Array Int "+cs+")"), r)
+					if _, isSl := ft.Underlying().(*types.Slice); isSl {
+						a := e.allocRef(st, "pooledarr")
+						e.assume(st.pc, sAnd(e.wf(ft, fv, e.next(st)), sOr("(= (s-arr "+fv+") 0)", "(= (s-arr "+fv+") "+a+")")))
+						if e.ownerOn() {
+							e.setOwner(st, a, "1")
+						}
+					} else {
+						e.assume(st.pc, e.wf(ft, fv, e.next(st)))
+					}
+				}
+			}
+		}
 	} else {
 		v := e.fresh("pooledv", s)
-		e.assume(st.pc, e.wf(t, v, e.next(st)))
+		if _, isSl := t.Underlying().(*types.Slice); isSl {
+			a := e.allocRef(st, "pooledarr")
+			e.assume(st.pc, sAnd(e.wf(t, v, e.next(st)), "(= (s-arr "+v+") "+a+")", "(= (s-off "+v+") 0)"))
+		} else {
+			e.assume(st.pc, e.wf(t, v, e.next(st)))
+		}
 		box := e.allocRef(st, "box")
 		comp := "Bx_" + san(s)
 		srt := "(Array Int " + s + ")"
